@@ -46,6 +46,7 @@ def run(chk):
         for kinds in combos:
             kernel_orders(chk, it, shape, kinds)
     reducers(chk, it)
+    lock_symmetry(chk, it)
     closure_purity(chk, it)
 
 
@@ -170,6 +171,95 @@ def kernel_orders(chk, it, shape, kinds):
                         chk.obligation('COMM-1/same-map/' + name, list(sm.pc) + [oka, okb], B.map_extensional_eq(ma, mb),
                                        inputs, replay=lambda mo: replay_orders(chk), kind='COMM', bound=tag)
                     chk.sample({'kernel': kname, 'batch': tag, 'order': order})
+
+
+def lock_symmetry(chk, it):
+    """SEQ-1: check_tx_validity gives the same verdict for a transaction whether a stake transaction it depends on was
+    folded into the state by an earlier batch (this.stakes) or sits in the same batch (new_stakes): needed for "a batch
+    equals applying its transactions one at a time in dependency order" """
+    from props import c13
+    G.reset()
+    G.atomic_domains = {'single:Transaction'}
+    st = State()
+    sh = z3.BitVec('stake_txhash', 256)
+    doc = c13.sym_stakedoc('stake')
+    folded = MapM().insert(S.txhash(sh), doc)
+    state_a, sterms = B.sym_state(st.pc, stakes=folded.entries)
+    f = list(state_a.fields)
+    f[10] = Agg(state_a.fields[10].ty, [Opaque('Map', MapM())]) if isinstance(state_a.fields[10], Agg) else state_a.fields[10]
+    state_b = Agg('UnsealedState', f)
+    B.install_history_invariant(it, sterms['height'])
+    st.pc.append(z3.UGE(sterms['height'], 1))
+    st.pc.append(z3.ULE(sterms['height'], 100_000_000))
+    tx, tt = B.sym_tx('tx', 2, 1, 1, st.pc, exclude_kinds=('DoscMint',))
+    rc = MapM()
+    tot = z3.BitVecVal(0, 136)
+    for i, cid in enumerate(tx.fields[1].fields):
+        holder = M.State_for_symvalue()
+        cdh = S.sym_value('CoinDataHeight', 'rc%d' % i, holder)
+        rc = rc.insert(cid, cdh)
+        st.pc.extend(holder.pc)
+        tot = tot + z3.ZeroExt(8, cdh.fields[0].fields[1].fields[0])
+    st.pc.append(z3.ULE(tot, z3.BitVecVal(1 << 127, 136)))
+    st.pc.append(z3.ULE(tt['fee'], 1 << 120))
+    st.pc.append(z3.ULE(tt['out0_value'], 1 << 120))
+    c0, c1 = tx.fields[1].fields
+    st.pc.append(z3.Not(val_eq(c0, c1)))
+    fn = it.by_last['check_tx_validity'][0]
+    sa, sb = st.fork(), st.fork()
+    outs_a = it.exec_fn(sa, fn, [Ptr(sa.alloc(state_a)), Ptr(sa.alloc(tx)), Ptr(sa.alloc(Opaque('Map', rc))),
+                                 Ptr(sa.alloc(Opaque('Map', MapM())))])
+    outs_b = it.exec_fn(sb, fn, [Ptr(sb.alloc(state_b)), Ptr(sb.alloc(tx)), Ptr(sb.alloc(Opaque('Map', rc))),
+                                 Ptr(sb.alloc(Opaque('Map', MapM().insert(S.txhash(sh), doc))))])
+    inputs = {'network': sterms['network'], 'height': sterms['height'], 'stake_txhash': sh,
+              'in0_txhash': c0.fields[0].fields[0].fields[0], 'in0_index': c0.fields[1],
+              'in1_txhash': c1.fields[0].fields[0].fields[0], 'in1_index': c1.fields[1]}
+    n = 0
+    for ka, (s1, oa) in enumerate(outs_a):
+        for kb, (s2, ob) in enumerate(outs_b):
+            if isinstance(oa, Panic) or isinstance(ob, Panic):
+                continue  # panic freedom of check_tx_validity is decided in C02 / C13
+            sm = B.combine(it, s1, s2)
+            n += 1
+            oka, okb = M.is_variant(oa.v, 'Ok'), M.is_variant(ob.v, 'Ok')
+            chk.obligation('SEQ-1/stake-folded-vs-same-batch/check_tx_validity/%d-%d' % (ka, kb), list(sm.pc) + B.supply_bound(sm),
+                           oka == okb, inputs, replay=lambda mo: replay_lock_symmetry(chk, mo, inputs), kind='COMM',
+                           bound='2 inputs, one stake transaction either registered earlier or in the same batch')
+    if n == 0:
+        raise Inconclusive('check_tx_validity has no returning path')
+
+
+def replay_lock_symmetry(chk, model, inputs):
+    """a stake transaction a (staked SYM + change) and a transaction b spending output k of a, as one batch and one at a time"""
+    from props import c13
+    ev = lambda t: harness.model_int(model, t)
+    net, h = ev(inputs['network']), min(ev(inputs['height']), 3_000_000)
+    if net not in (0xff, 1, 2, 3, 4, 5, 6, 7, 8):
+        net = 2
+    sh = ev(inputs['stake_txhash'])
+    ks = [ev(inputs['in%d_index' % i]) for i in (0, 1) if ev(inputs['in%d_txhash' % i]) == sh]
+    ks = sorted(set(min(k, 1) for k in ks)) or [0, 1]
+    epoch = h // c13.STAKE_EPOCH
+    d = {'pubkey': '00' * 32, 'e_start': epoch + 1, 'e_post_end': epoch + 3, 'syms_staked': '1000'}
+    last = None
+    for k in ks + [x for x in (0, 1) if x not in ks]:
+        res = []
+        for steps in ([[0, 1]], [[0], [1]]):
+            sc = c13._stake_scenario(net, h, d, 1000, 'SYM', steps)
+            b = sc['txs'][1]
+            b['inputs'][0]['index'] = k
+            if k == 1:
+                b['outputs'] = [{'covhash': {'covhash_of': 'true'}, 'value': '12', 'denom': 'MEL', 'adata': '01'}]
+            out = harness.run_replay([sc], 'dev')[0]
+            if 'error' in out or 'unrealizable' in out:
+                raise Inconclusive('replay: %s' % out)
+            res.append([st_.get('result') for st_ in out['steps']])
+        batch_ok = res[0][0] == 'Ok'
+        seq_ok = all(r == 'Ok' for r in res[1])
+        last = (sc, {'spent_output': k, 'one_batch': res[0], 'one_at_a_time': res[1]})
+        if batch_ok != seq_ok:
+            return True, last[0], last[1]
+    return False, last[0], last[1]
 
 
 def reducers(chk, it):
